@@ -55,14 +55,18 @@ def geometry(draw, max_wfs=4, max_n=7, max_layers=3):
     D = draw(st.sampled_from([1.0, 4.2, 8.0, 39.0]))
     same_mask = draw(st.booleans())
     masks, kinds = [], []
+    # sensors of different order on one telescope (a 2 x 2 truth sensor next to 7 x 7 laser sensors, a 1 x 1 tip-tilt star)
+    mixed_orders = (not same_mask) and draw(st.integers(0, 3)) == 0
+    orders = []
     for w in range(n_wfs):
         if w == 0 or not same_mask:
-            m, k = draw(mask_strategy(n))
+            nw = draw(st.integers(1, max_n)) if mixed_orders else n
+            m, k = draw(mask_strategy(nw))
         masks.append(m.copy())
         kinds.append(k)
+        orders.append(m.shape[0])
     diam_mode = draw(st.sampled_from(["equal", "equal", "equal", "different"]))
-    d0 = D / n
-    diams = [d0 if diam_mode == "equal" else d0 * draw(st.sampled_from([1.0, 0.5, 0.8, 1.25])) for _ in range(n_wfs)]
+    diams = [D / orders[w] if diam_mode == "equal" else D / orders[w] * draw(st.sampled_from([1.0, 0.5, 0.8, 1.25])) for w in range(n_wfs)]
     alt_mode = draw(st.sampled_from(["ngs", "lgs_same", "mixed", "lgs_diff"]))
     alts = []
     H0 = draw(st.sampled_from([10e3, 25e3, 90e3, 200e3]))
